@@ -46,6 +46,8 @@ def finish(ctx):
 
 def cases(ctx):
     rng = ctx.rng('c12')
+    if ctx.mine(0):
+        yield {'src': 'repo_data'}
     n = ctx.budget(1000, 40000)
     for it in range(max(4, n // 25)):
         # files with a single data row: np.loadtxt returns a 0-d (one column) or 1-d (two columns) array
@@ -67,7 +69,51 @@ def write_file(path, cols):
             f.write(' '.join(repr(float(x)) for x in row) + '\n')
 
 
+def run_repo_data(ctx, case):
+    """the tabulated form factors shipped in repo/data (two-column files with comment headers; '.dat' whitespace and '.csv' comma
+    separated, written for Domain(dr=0.1, length=1024) or for other grids): verbatim on the matching grid, refused on another one"""
+    data_dir = os.path.join(core.REPO, 'data')
+    names = sorted(f for f in os.listdir(data_dir) if 'Omega' in f)
+    dom = pyPRISM.Domain(dr=0.1, length=1024)
+    other = pyPRISM.Domain(dr=0.05, length=1024)
+    k = np.array(dom.k)
+    used = 0
+    for name in names:
+        path = os.path.join(data_dir, name)
+        rows = [[float(x) for x in ln.replace(',', ' ').split()] for ln in open(path) if ln.strip() and not ln.lstrip().startswith('#')]
+        cols = np.array(rows)
+        matches = cols.shape[0] == len(k) and cols.shape[1] == 2 and np.allclose(cols[:, 0], k)
+        ctx.hook('repo_data_file')
+        try:
+            with np.errstate(all='ignore'):
+                out = np.asarray(pyPRISM.omega.FromFile(path).calculate(np.array(k)))
+            raised = None
+        except Exception as e:   # noqa
+            raised = e
+        if matches:
+            used += 1
+            if raised is not None:
+                ctx.violation('tab:matching-data-refused:repo-data', 'repo/data/%s matches the k grid of Domain(dr=0.1,length=1024) but FromFile raises %s: %s' % (name, type(raised).__name__, str(raised)[:100]))
+            elif out.shape != (len(k),) or not np.array_equal(out, cols[:, 1]):
+                ctx.violation('tab:not-verbatim:repo-data', 'repo/data/%s is not returned unchanged on its own grid' % name)
+            try:
+                with np.errstate(all='ignore'):
+                    pyPRISM.omega.FromFile(path).calculate(np.array(other.k))
+                ctx.violation('tab:mismatch-accepted:repo-data-other-grid', 'repo/data/%s (tabulated for dr=0.1) is accepted on the grid of Domain(dr=0.05,length=1024)' % name)
+            except Exception:   # noqa
+                ctx.hook('mismatch.rejected')
+        elif raised is None and cols.shape[1] == 2:
+            ctx.violation('tab:mismatch-accepted:repo-data', 'repo/data/%s (%d rows, k from %g) does not match Domain(dr=0.1,length=1024) but is accepted' % (name, cols.shape[0], cols[0, 0]))
+        else:
+            ctx.hook('mismatch.rejected')
+    ctx.count('repo_data_files', '%d files, %d on the tutorial grid' % (len(names), used))
+    if used:
+        ctx.nontrivial(['repo_data'])
+
+
 def run_case(ctx, case):
+    if case.get('src') == 'repo_data':
+        return run_repo_data(ctx, case)
     rng = np.random.default_rng(case['seed'])
     L = int(case['L'])
     dom = pyPRISM.Domain(length=L, dr=case['sp']) if case['dom'] == 'dr' else pyPRISM.Domain(length=L, dk=case['sp'])
